@@ -30,7 +30,7 @@
      per request, echoing the request id ([ERemAnswer]), or resets the stream
      ([ERemReset]).  It never sends unsolicited messages and does not answer
      SendMessage writes.
-   - protobuf/msgio framing: a reply is [RGood id] or [RBad] (undecodable).
+   - protobuf/msgio framing: a reply is [RGood id] or [RBad id] (undecodable).
    - Stream.Close returns nil.  Request ids are the thread (call) ids. *)
 From Verif.Lib Require Import GoSem Bits.
 
@@ -77,7 +77,10 @@ Inductive result :=
 | RErr (e : err)
 | RPanic.                  (* nil stream dereference / Unlock of an unlocked mutex *)
 
-Inductive reply := RGood (id : nat) | RBad.
+(* [RBad id]: an undecodable reply; [id] (the request it answers) is ghost
+   information for the proofs, the reader cannot see it *)
+Inductive reply := RGood (id : nat) | RBad (id : nat).
+Definition reply_id (r : reply) : nat := match r with RGood i => i | RBad i => i end.
 Inductive cstate := COpen | CReset | CClosed.  (* what the client did to the stream *)
 
 Record sender := {
@@ -470,7 +473,7 @@ Definition step (s : state) (e : event) : option state :=
                                | [] => None
                                | RGood id :: rest =>
                                    Some (finish (put_stream s st (sm_set_queues y (sm_pending y) rest)) t th sd x r (Some id))
-                               | RBad :: rest =>
+                               | RBad _ :: rest =>
                                    Some (fail_exchange (put_stream s st (sm_set_queues y (sm_pending y) rest)) t th sd x r true EReadErr)
                                end
                       | None => None
@@ -517,7 +520,7 @@ Definition step (s : state) (e : event) : option state :=
           | id :: rest =>
               let deliver := match sm_cli y with COpen => negb (sm_dead y) | _ => false end in
               Some (put_stream s st (sm_set_queues y rest
-                      (if deliver then sm_inbox y ++ [if good then RGood id else RBad] else sm_inbox y)))
+                      (if deliver then sm_inbox y ++ [if good then RGood id else RBad id] else sm_inbox y)))
           end
       | None => None
       end
